@@ -1,1 +1,3 @@
+pub mod alloc;
+pub mod verifier;
 pub mod worker;
